@@ -30,12 +30,17 @@ def run(ctx):
     ctx.rule("UPDATE", "min/max masks exclude NaN and the own outage; cause attribution NaN-safe and valid-only; overload "
                        "attribution guarded by the limit comparison")
     cg.rule_update(ctx, "UPDATE", fu, parallel=False)
+    ctx.rule("OPTIONS", "N-1 cases are evaluated with pf_options_nminus1 (filtered from itself), the base case with pf_options; cases of "
+                        "elements that are out of service are skipped")
+    cg.rule_options(ctx, "OPTIONS", fi)
 
 
 def variants(repo):
     p = "pandapower/contingency/contingency.py"
     V = Variant
     return [
+        V("n-1 options filtered from the base-case options", p, replace_once("pf_options_nminus1 = {key: val for key, val in pf_options_nminus1.items() if key not in", "pf_options_nminus1 = {key: val for key, val in pf_options.items() if key not in"), "OPTIONS"),
+        V("outage evaluated with the base-case options", p, in_function("run_contingency", replace_once("contingency_evaluation_function(net, **pf_options_nminus1, **kwargs)", "contingency_evaluation_function(net, **pf_options, **kwargs)")), "OPTIONS"),
         V("restore on normal path only", p, in_function("run_contingency", lambda s: s.replace("            finally:\n                net[element].at[i, 'in_service'] = True\n", "            net[element].at[i, 'in_service'] = True\n", 1)), "RESTORE"),
         V("n0 before n1", p, in_function("run_contingency", lambda s: s.replace("    for element, val in nminus1_cases.items():\n", "    contingency_evaluation_function(net, **pf_options, **kwargs)\n    _update_contingency_results(net, contingency_results, result_variables, nminus1=False)\n    for element, val in nminus1_cases.items():\n", 1).replace("    contingency_evaluation_function(net, **pf_options, **kwargs)\n    _update_contingency_results(net, contingency_results, result_variables, nminus1=False)\n\n    if write_to_net", "\n    if write_to_net", 1)), "ORDER"),
         V("cause compares with nan", p, in_function("_update_contingency_results", replace_once("(val > np.nan_to_num(running_max, nan=-np.inf))", "(val > running_max)")), "cause-nan-safe"),
